@@ -364,6 +364,9 @@ def _eq(a, b):
 def snapshot(x, full=False):
     """History-independent snapshot of an object: digests per field."""
     s = {}
+    if isinstance(x, (Expr, Form)) and ops.is_cyclic(x):
+        # a node that is its own descendant: nothing else can be computed safely
+        return {"repr": "!cyclic", "hash": "!cyclic", "cyclic": 1}
 
     def put(k, f):
         try:
@@ -572,17 +575,32 @@ def xop_roundtrip(node, op):
 
     _, out, slot, how = op
     a = node.dec(["$", slot])
-    if how == "pickle":
-        b = pickle.loads(pickle.dumps(a, protocol=pickle.HIGHEST_PROTOCOL))
-    else:
-        if not isinstance(a, Expr):
-            raise Skip("evalrepr-form")
-        if node.evalns is None:
-            from sim import elements
 
-            node.evalns = elements.eval_namespace()
-            node.evalns.update(node.newtypes)
-        b = eval(repr(a), dict(node.evalns))
+    def trip(x):
+        if how == "pickle":
+            return pickle.loads(pickle.dumps(x, protocol=pickle.HIGHEST_PROTOCOL))
+        return eval(repr(x), dict(node.evalns))
+
+    if how != "pickle" and not isinstance(a, Expr):
+        raise Skip("evalrepr-form")
+    try:
+        b = trip(a)
+    except BaseException as ex:  # noqa: B036
+        if isinstance(ex, (KeyboardInterrupt, RecursionError, MemoryError)):
+            raise  # injected faults are not judged here
+        # The round trip itself failed: name the smallest sub-expression that fails.
+        culprit = type(a).__name__
+        if isinstance(a, Expr):
+            from ufl.corealg.traversal import unique_post_traversal
+
+            for sub in unique_post_traversal(a):
+                try:
+                    trip(sub)
+                except BaseException:  # noqa: B036
+                    culprit = type(sub).__name__
+                    break
+        node.invalidate(out)
+        return {"viol": [{"clause": "E7-" + how + "-raises", "a": slot, "b": out, "types": culprit + ":" + type(ex).__name__}]}
     node.put(out, b)
     viol = []
     tn = type(a).__name__ + "/" + type(b).__name__
